@@ -714,6 +714,12 @@ class Engine:
                 return z3.And(a.n == b.n, z3.ForAll([i], z3.Implies(
                     z3.And(0 <= i, i < a.n), a.arr[i] == b.arr[i])))
             raise Unsupported("list equality in code")
+        if isinstance(a, VU) and isinstance(b, (VInt, VBool)):
+            # an opaque value compared with an int: the opaque value is the
+            # embedding INTU(i) of that int
+            return a.t == z3.Function("INTU", IntS, U)(_as_int(b))
+        if isinstance(b, VU) and isinstance(a, (VInt, VBool)):
+            return b.t == z3.Function("INTU", IntS, U)(_as_int(a))
         if isinstance(a, VU) and isinstance(b, VFunc) and b.t is not None:
             return a.t == b.t
         if isinstance(a, VFunc) and isinstance(b, VU) and a.t is not None:
@@ -1285,6 +1291,10 @@ class Engine:
                 if self.lib.setattr(st, obj, target.attr, v, target.lineno):
                     return
                 self.store_field(st, obj, target.attr, v)
+                return
+            if isinstance(obj, VU):
+                # attribute of an opaque library object (e.g. a flatbuffers
+                # builder): part of its opaque state
                 return
             raise Unsupported(f"attribute store on {obj!r}")
         if isinstance(target, ast.Subscript):
